@@ -70,11 +70,14 @@ def render(layout):
     return "".join(out)
 
 
-def malformed(rng):
+MALFORMED_KINDS = ["blank", "ragged", "nohdr", "dup", "dupadj", "empty", "hdronly", "mixedeol", "gtinseq", "emptyrec", "spacehdr"]
+
+
+def malformed(rng, kind=None):
     """byte strings outside the well-formed class: compared with the model on
     Ok/Err and full value, not judged by the oracle"""
     base = render(gen_fasta(rng, maxlen=12, widths=[2, 3, 4]))
-    kind = rng.choice(["blank", "ragged", "nohdr", "dup", "empty", "hdronly", "mixedeol", "gtinseq", "emptyrec", "spacehdr"])
+    kind = kind or rng.choice(MALFORMED_KINDS)
     if kind == "blank":
         ls = base.split("\n")
         ls.insert(rng.randrange(len(ls)), "")
@@ -85,6 +88,15 @@ def malformed(rng):
         return kind, "ACGT\n" + base
     if kind == "dup":
         return kind, base + ("" if base.endswith("\n") else "\n") + base
+    if kind == "dupadj":
+        # the same name on two records that directly follow each other (first two, last two, or a
+        # pair in the middle), the second copy with other residues
+        lay = gen_fasta(rng, maxlen=12, widths=[2, 3, 4])
+        recs = lay["records"]
+        j = rng.randrange(len(recs))
+        twin = {**recs[j], "seq": rng.choice([recs[j]["seq"], "ACGT", "N", recs[j]["seq"] + "A"])}
+        lay = {**lay, "records": recs[: j + 1] + [twin] * rng.choice([1, 1, 2]) + recs[j + 1 :]}
+        return kind, render(lay)
     if kind == "empty":
         return kind, rng.choice(["", "\n", "\n\n"])
     if kind == "hdronly":
